@@ -1,7 +1,7 @@
 (* C09 -- Schedules conclude, repeat and report exhaustion exactly as documented
    Property theorems only: each proof is one application of a lemma proved in Proofs/, followed by Print Assumptions. *)
 From Coq Require Import ZArith List Bool.
-From CS Require MSTerm OnlineFlags Flags RevConv RevBridge4 RevolveRun PassRepeat Online DiskRun DiskBridge3 HRevRun HRevTop GenLang GenBasic GenLang2 GenTwo GenLang3 GenMulti GenLang4 GenConv GenLang5 GenMixed SeqGenSpec HSeqGenSpec.
+From CS Require MSTerm OnlineFlags Flags RevConv RevBridge4 RevolveRun PassRepeat Online DiskRun DiskBridge3 HRevRun HRevTop GenLang GenBasic GenLang2 GenTwo GenLang3 GenMulti GenLang4 GenConv GenLang5 GenMixed SeqGenSpec HSeqGenSpec HoptGenSpec OptInfGenSpec Opt0GenSpec.
 From CS Require Import Actions NAdvance Multistage Exec Sched RunFacts Projections BasicInv MultistageRun AllocTotal TLBridge MixBridge.
 Import ListNotations.
 Open Scope Z_scope.
@@ -137,6 +137,36 @@ Theorem C09_hrevolve_sequence_is_source :
 Proof. exact (@HSeqGenSpec.hrevolve_is_source). Qed.
 Print Assumptions C09_hrevolve_sequence_is_source.
 End M_C09_hrevolve_sequence_is_source.
+
+(* ... and the cost tables of H-Revolve: get_hopt_table rendered by the translator for two storage levels (Gen/HoptGen.v: assignments into opt[k][l][m] / optp[k][l][m] are hset, reads hget, float(inf) is Inf, l * (l + 1) / 2 exact division), proved equal to HRevSeq.get_hopt_table for all arguments *)
+Module M_C09_hopt_table_is_source.
+Import HoptGenSpec.
+Theorem C09_hopt_table_is_source :
+  forall lmax c0 c1 w0 w1 r0 r1 ub uf : Z,
+         hopt_shape lmax c0 c1 w0 w1 r0 r1 ub uf = HRevSeq.get_hopt_table lmax c0 c1 w0 w1 r0 r1 ub uf.
+Proof. exact (@HoptGenSpec.hopt_shape_is_model). Qed.
+Print Assumptions C09_hopt_table_is_source.
+End M_C09_hopt_table_is_source.
+
+(* ... and the Disk-Revolve table: get_opt_inf_table (one_read_disk = True) rendered by the translator (Gen/OptInfGen.v: the Table is a list that only grows by append), proved equal to RevSeq.get_opt_inf_table for all arguments *)
+Module M_C09_optinf_table_is_source.
+Import OptInfGenSpec.
+Theorem C09_optinf_table_is_source :
+  forall (lmax cm uf ub rd wd : Z) (opt_0 : list (list Z)),
+         optinf_shape lmax cm uf ub rd wd opt_0 = RevSeq.get_opt_inf_table lmax cm uf ub rd wd opt_0.
+Proof. exact (@OptInfGenSpec.optinf_shape_is_model). Qed.
+Print Assumptions C09_optinf_table_is_source.
+End M_C09_optinf_table_is_source.
+
+(* ... and the Revolve table: get_opt_0_table rendered by the translator (Gen/Opt0Gen.v: a list of rows that only grow by append), proved equal to RevSeq.get_opt_0_table for every slot count mmax >= 0 *)
+Module M_C09_opt0_table_is_source.
+Import Opt0GenSpec.
+Theorem C09_opt0_table_is_source :
+  forall lmax mmax uf ub : Z,
+         0 <= mmax -> opt0_shape lmax mmax uf ub = RevSeq.get_opt_0_table lmax mmax uf ub.
+Proof. exact (@Opt0GenSpec.opt0_shape_is_model). Qed.
+Print Assumptions C09_opt0_table_is_source.
+End M_C09_opt0_table_is_source.
 
 (* FLAGS, all thirteen classes, every parameter tuple the constructor accepts, every history of next() / finalize(k) requests (ops), any executor parameters: before the first request is_exhausted = is_running = False; after every next() is_running = True; is_exhausted after a request = (the final action of the class has been yielded so far) -- final_action: EndForward for None, EndReverse for the offline classes and SingleDisk(move), none for SingleMemory, SingleDisk(copy), TwoLevel; no action is yielded once the final action has been seen (only StopIteration / an exception), and finalize never changes the flag. flags_hist is the trace rule, defined in Proofs/OnlineFlags.v *)
 Module M_C09_flags.
